@@ -90,6 +90,8 @@ def classify_exception(exc: BaseException) -> Optional[str]:
     """
     tb = traceback.extract_tb(exc.__traceback__)
     for fr in reversed(tb):
+        if not os.path.isabs(fr.filename):
+            continue  # frames of compiled extensions ("numpy/random/mtrand.pyx"): neither side
         fn = os.path.abspath(fr.filename)
         if fn.startswith(REPO_DIR + os.sep):
             return f"exception:{type(exc).__name__}:{fr.name}"
